@@ -2,8 +2,8 @@
    Property theorems only; proofs live in Proofs/C06_deepcopy.v.  All positive statements are
    about the model with flags = fixed_flags, i.e. Class.__deepcopy__ as coded in /repo now (the
    run-time tie run/C06/Tie_C06.v checks that the flags read from ast.py are these). *)
-From Coq Require Import List Arith Bool.
-From PV Require Import Lib.ObjGraph Model.C06_deepcopy Proofs.C06_deepcopy.
+From Coq Require Import List Arith Bool Lia.
+From PV Require Import Lib.ObjGraph Model.C06_deepcopy Proofs.C06_deepcopy Proofs.C06_reach.
 Import ListNotations.
 
 (* copy.deepcopy of ANY class object (a Tree, a copy, or the class found by
@@ -68,6 +68,85 @@ Proof.
 Qed.
 Print Assumptions C06_copy_of_copy.
 
+(* ---- reachable worlds ------------------------------------------------------------------------
+   wf_tree (Proofs/C06_reach.v) is what the parser leaves (root first, every class after its owner with
+   parent = owner, one entry per name path, no hooks).  EVERY operation of the model — deepcopy of any
+   class (Tree, copy, find_class(copy=True)), add_class, remove_class, symbol/equation edits, on any
+   tree — preserves it, so every world reachable by any history from a parsed tree is well-formed. *)
+Theorem C06_reachable_wf (t0 : tree) (ops : list op) :
+  wf_tree 0 t0 -> wf_world (run fixed_flags ops [t0]).
+Proof. exact (reachable_wf t0 ops). Qed.
+Print Assumptions C06_reachable_wf.
+
+(* C06_iso / C06_disjoint / C06_copy_of_copy in every reachable world, for every live class object *)
+Theorem C06_reachable_copy (t0 : tree) (ops : list op) (a : addr) (i0 : info) (rest : list (path * info)) :
+  wf_tree 0 t0 ->
+  let w := run fixed_flags ops [t0] in
+  src_of w a = Some (i0, rest) ->
+  exists c, deepcopy fixed_flags w a = Some (w ++ [c]) /\
+    erase c = erase (([], i0) :: rest) /\ closed_below (length w) c /\
+    assoc [] c = Some (Info (dat i0) (par i0) None) /\
+    (par i0 = None -> closed_tree (length w) c) /\
+    wf_world (w ++ [c]) /\
+    exists c', deepcopy fixed_flags (w ++ [c]) (length w, []) = Some ((w ++ [c]) ++ [c']) /\
+               erase c' = erase c /\ closed_below (S (length w)) c'.
+Proof.
+  intros H0 w S. pose proof (reachable_wf t0 ops H0) as Hw. fold w in Hw.
+  destruct a as [ti p].
+  assert (exists t, nth_error w ti = Some t) as (t & Ht).
+  { unfold src_of in S. cbn [fst] in S. destruct (nth_error w ti); [eauto|discriminate]. }
+  destruct (wf_src w ti t p i0 rest Ht (Hw _ _ Ht) S) as (Hat & Hle & _ & _).
+  assert (Hlt : ti < length w) by (apply nth_error_Some; congruence).
+  assert (Hsc : forall pa, par i0 = Some pa -> fst pa < length w) by (intros pa E; specialize (Hle _ E); lia).
+  pose proof (deepcopy_spec _ _ _ _ Hat) as Hd.
+  exists (spec_copy (length w) i0 rest). split; [exact Hd|].
+  pose proof Hat as (_ & _ & _ & Hr). cbn [fst snd] in Hr.
+  split; [apply spec_copy_iso|]. split; [eapply spec_copy_closed_below; eauto|].
+  split; [reflexivity|]. split; [intros Hp; eapply spec_copy_closed_tree; eauto|].
+  split; [eapply deepcopy_wf; eauto|].
+  destruct (copy_of_copy w (ti, p) i0 rest Hat Hsc) as (c' & Hd' & He & Hc & _).
+  exists c'. auto.
+Qed.
+Print Assumptions C06_reachable_copy.
+
+(* history-level independence (the property's sentence, for histories): in any reachable world, copy
+   a self-contained tree A (the parsed tree, a copy, a copy of a copy ...) giving B; then after ANY
+   interleaving `ops` of edits addressed to A, to B or to other trees, further deepcopies and
+   find_class(copy=True), the tree A and everything lookup reaches from any class of A are exactly what
+   the sub-history of the operations addressed to A alone produces — and likewise for B. *)
+Theorem C06_history_independent (t0 : tree) (ops0 ops : list op) (ta : nat) :
+  wf_tree 0 t0 ->
+  let w := run fixed_flags ops0 [t0] in
+  root_none w ta ->
+  exists c, deepcopy fixed_flags w (ta, []) = Some (w ++ [c]) /\
+    let w1 := w ++ [c] in
+    let tb := length w in
+    let full := run fixed_flags ops w1 in
+    let onlyA := run fixed_flags (filter (touchesb ta) ops) w1 in
+    let onlyB := run fixed_flags (filter (touchesb tb) ops) w1 in
+    (nth_error full ta = nth_error onlyA ta /\ forall p ss, see full (ta, p) ss = see onlyA (ta, p) ss) /\
+    (nth_error full tb = nth_error onlyB tb /\ forall p ss, see full (tb, p) ss = see onlyB (tb, p) ss).
+Proof.
+  intros H0 w Hr. pose proof (reachable_wf t0 ops0 H0) as Hw. fold w in Hw.
+  destruct (copy_root_none w ta Hw Hr) as (c & Hd & HrB & HrA & Hw1 & _).
+  exists c. split; [exact Hd|]. cbn zeta. split.
+  - exact (history_projection (w ++ [c]) ta ops Hw1 HrA).
+  - exact (history_projection (w ++ [c]) (length w) ops Hw1 HrB).
+Qed.
+Print Assumptions C06_history_independent.
+
+(* the same for any self-contained tree of any reachable world and any further history *)
+Theorem C06_history_projection (t0 : tree) (ops0 ops : list op) (ti : nat) :
+  wf_tree 0 t0 ->
+  let w := run fixed_flags ops0 [t0] in
+  root_none w ti ->
+  nth_error (run fixed_flags ops w) ti = nth_error (run fixed_flags (filter (touchesb ti) ops) w) ti /\
+  forall p ss, see (run fixed_flags ops w) (ti, p) ss = see (run fixed_flags (filter (touchesb ti) ops) w) (ti, p) ss.
+Proof.
+  intros H0 w Hr. exact (history_projection w ti ops (reachable_wf t0 ops0 H0) Hr).
+Qed.
+Print Assumptions C06_history_projection.
+
 (* ---- the code before 08ba236: both parts fail (finite witnesses, by computation) ---- *)
 Definition ex_tree : tree :=
   [ ([], Info (CD [] 0) None None);
@@ -108,3 +187,14 @@ Proof.
     cbn; repeat split; auto; intros H; discriminate H.
 Qed.
 Print Assumptions C06_example.
+
+(* the parsed-tree hypothesis of the reachable-world theorems is satisfiable *)
+Example C06_example_wf : wf_tree 0 ex_tree /\ root_none [ex_tree] 0.
+Proof.
+  split.
+  - eexists _, _. split; [reflexivity|]. split; [reflexivity|]. split; [intros pa H; discriminate H|]. split.
+    + cbn. repeat split; auto; intros H; discriminate H.
+    + cbn. repeat constructor; cbn; intuition discriminate.
+  - eexists _, _. split; reflexivity.
+Qed.
+Print Assumptions C06_example_wf.
